@@ -1,8 +1,8 @@
-\* trace validation: unbounded sizes, 8 blocks
+\* trace validation: unbounded sizes, 48 blocks (a random population of 8, a chain of 40)
 CONSTANTS
-  Blocks = {1, 2, 3, 4, 5, 6, 7, 8}
+  Blocks = {1, 2, 3, 4, 5, 6, 7, 8, 9, 10, 11, 12, 13, 14, 15, 16, 17, 18, 19, 20, 21, 22, 23, 24, 25, 26, 27, 28, 29, 30, 31, 32, 33, 34, 35, 36, 37, 38, 39, 40, 41, 42, 43, 44, 45, 46, 47, 48}
   Sizes = {0}
-  MaxRefs = 1000
+  MaxRefs = 100000
 INIT TInit
 NEXT TNext
 CHECK_DEADLOCK FALSE
